@@ -235,6 +235,17 @@ def check_case(case, ctx):
                     ctx.check(same_number(got, want), "C18.prepared_data",
                               lambda: f"{what}: prepared {var['name']}{idx + (s,)} = {got!r}; segment {s} "
                               f"is cell {int(seg.linear_index)} whose value there is {want!r}")
+            # history: the same transect is now handed a DIFFERENT array that has the same name,
+            # dimensions and shape (an anomaly, a unit conversion): its own values come back
+            derived = (da.astype("float64") * 2 + 1).rename(da.name)
+            ctx.at("C18.prepared_data")
+            out2 = transect.prepare_data_array_for_transect(derived)
+            want2 = values.astype("float64") * 2 + 1
+            ctx.check(out2.shape == want2.shape and numpy.array_equal(out2.values, want2, equal_nan=True),
+                      "C18.prepared_data",
+                      lambda: f"{what}: after preparing {var['name']}, preparing {var['name']}*2+1 "
+                      f"(same name, dims and shape) on the same transect gives "
+                      f"{out2.values.tolist()}, expected {want2.tolist()}")
     has_holes = any(p is None for p in polygons)
     start_hits = c04.cell_hits(path[0], polygons, cells, defined)
     kinds = {sel["kind"] for sel in case["vertices"]}
